@@ -32,14 +32,20 @@ func c02PickNode(r *sim.Run, src *objSource) node {
 	return src.nodes[t.Draw(len(src.nodes))]
 }
 
+// An encoder that panics has not "reported success": C02/C03 demand nothing then (crash-freedom of
+// re-encoding is C04's subject and is checked there, including trun optimisation).
 func encodeTo(r *sim.Run, what string, o encodable, s *sim.Sink) (err error) {
-	r.Guard(what, func() { err = o.Encode(s) })
+	if perr := noPanic(r, func() { err = o.Encode(s) }); perr != nil {
+		return perr
+	}
 	return
 }
 
 func encodeSWTo(r *sim.Run, what string, o encodable, capacity int) (out []byte, err, acc error) {
 	sw := sim.NewFaultSliceWriter(capacity)
-	r.Guard(what, func() { err = o.EncodeSW(sw) })
+	if perr := noPanic(r, func() { err = o.EncodeSW(sw) }); perr != nil {
+		return sw.Bytes(), perr, sw.AccError()
+	}
 	return sw.Bytes(), err, sw.AccError()
 }
 
@@ -144,8 +150,8 @@ func c02Run(r *sim.Run) {
 		for _, d := range ds {
 			out, err, acc := encodeSWTo(r, fmt.Sprintf("EncodeSW(capacity Size-%d)", d), o, len(M)-d)
 			r.Fault("slice-short")
-			if err == nil && acc == nil {
-				r.Violate("c02-sw-short-success", "%s: EncodeSW into a slice writer %d bytes too small reported success (no error, no accumulated error), %d of %d bytes written", nd.desc, d, len(out), len(M))
+			if err == nil {
+				r.Violate("c02-sw-short-success", "%s: EncodeSW into a slice writer %d bytes too small returned nil (accumulated error: %v), %d of %d bytes written", nd.desc, d, acc, len(out), len(M))
 			}
 			_ = out // what a failed EncodeSW leaves in the slice is unspecified (accumulated-error design): not checked
 		}
@@ -200,7 +206,7 @@ func c02Run(r *sim.Run) {
 					c += t.Draw(32)
 				}
 				out, err, acc := encodeSWTo(r, "EncodeSW(history)", o, c)
-				if err == nil && acc == nil && !bytes.Equal(out, M) {
+				if err == nil && !bytes.Equal(out, M) {
 					r.Violate("c02-not-idempotent", "%s: EncodeSW in a history reported success but differs from the first encoding (len %d vs %d, first diff %d)", nd.desc, len(out), len(M), firstDiff(out, M))
 				}
 				r.Event("h-encodesw", btoi(err != nil || acc != nil))
@@ -251,7 +257,7 @@ func init() {
 			"first fault-free encoding M is the model; then one of: (0) Encode with write k failing for EVERY k in 1..W (sampled only if W>400), (1) device-full at every write boundary -1/0/+1 plus interior budgets, " +
 			"(2) EncodeSW with capacity Size()-d for every d in 1..min(Size,64) plus larger d, exact and larger capacity, (3) a seeded history of Size/Info(level, good|failing sink)/Encode(good|failing)/EncodeSW(exact|short|long); then a final clean encode. " +
 			"non-trivial = at least one sink/slice fault fired inside an encode; distinct = hash of (source, decode path, modes, node, fault points, history).",
-		Assumptions: []string{"EncodeSW 'reports success' is read as: returned error nil AND the slice writer's accumulated error nil (the SliceWriter contract)", "objects with a lazily written mdat payload are excluded: their Size() includes the payload that Encode does not write, by documented design (C08)",
+		Assumptions: []string{"EncodeSW 'reports success' is read strictly: the returned error is nil (the accumulated error of the slice writer is not consulted)", "objects with a lazily written mdat payload are excluded: their Size() includes the payload that Encode does not write, by documented design (C08)",
 			"Size() beforehand is compared only for decoded objects without trun optimisation"},
 		Real: realLib, Stub: stubIO, RealNoFault: realNoFault,
 		Runs:       map[string]int{"quick": 60000, "thorough": 3000000},
